@@ -112,16 +112,22 @@ NOT_YET = {
 
 # thorough tier: coverage-guided libFuzzer campaigns over the same strategies and checks (DESIGN.md §8.8)
 SECFUZZ = {
- "C01": "history", "C03": "payment, sequence", "C04": "address", "C05": "quorum", "C06": "schedules",
+ "C01": "history", "C03": "payment, sequence, issued_quote", "C04": "address", "C05": "quorum", "C06": "schedules",
  "C07": "updates, same_key_other_kind", "C08": "history", "C09": "cluster, forced_fetch", "C10": "capacity",
  "C11": "fetch_order, sort", "C12": "record_roundtrip, message_roundtrip", "C13": "quote_mutations, proof_truth_table, historical_verify",
  "C16": "parse, arith, display", "C18": "history, corrupt", "C19": "sequences",
 }
 EXTRA_TECH = {
+ "C03": "; histories in which the node's own quote in the proof is one the node REALLY issued (Query::GetStoreQuote through its query handler) for this or another address or in an earlier step; unpaid uploads over a held record of another kind that shares the key",
+ "C04": "; kad PUTs without a payment envelope under held keys whose records have left the read cache",
+ "C07": "; end-of-history re-read after the record has been pushed out of a 2-entry read cache (what the node holds on disk = what it last served)",
+ "C09": "; a transient write fault on the receiving neighbour (first write of the fetched copy fails, disk recovers, further rounds)",
+ "C16": "; zero-padded whole parts with lengths around 60 / 78 digits and integer-type widths",
+ "C19": "; a registry file that the code saved and that no longer loads is a violation (the history reloads it before and after every command)",
  "C01": "; write faults also on held, acknowledged keys with a 'held (listed and readable) or gone' oracle for every settled key",
  "C05": "; callers with a retry strategy on a paused clock (each attempt answered by a generated reply list and terminator, quorum counted leniently over all attempts)",
  "C06": "; every reached state must be mergeable into a replica that holds nothing",
- "C10": "; records of the size limit or more at any fill level (a refusal leaves the held set unchanged)",
+ "C10": "; records of the size limit or more at any fill level (a refusal leaves the held set unchanged); node-side child section (vh-node): the figures in quotes the node really issues through its query handler against the history (capacity, held records in range, payments verified by real paid uploads)",
  "C11": "; whose replication lists a node acts on (sender of a generated closeness rank among 22-70 routing-table peers)",
  "C20": "; service environments carrying the EVM variables the node itself reads",
 }
